@@ -182,6 +182,43 @@ mod peer_connection_service;
 mod security;
 mod signature_verification_service;
 mod synchronisation;
+#[cfg(feature = "verif")]
+pub mod verif_hooks;
+
+/// re-exports of the internal modules for the verification harness
+#[cfg(feature = "verif")]
+pub mod verif {
+    pub mod configuration {
+        pub use crate::configuration::*;
+    }
+    pub mod database {
+        pub use crate::database::*;
+    }
+    pub mod date_utils {
+        pub use crate::date_utils::*;
+    }
+    pub mod discret {
+        pub use crate::discret::*;
+    }
+    pub mod event_service {
+        pub use crate::event_service::*;
+    }
+    pub mod network {
+        pub use crate::network::*;
+    }
+    pub mod peer_connection_service {
+        pub use crate::peer_connection_service::*;
+    }
+    pub mod security {
+        pub use crate::security::*;
+    }
+    pub mod signature_verification_service {
+        pub use crate::signature_verification_service::*;
+    }
+    pub mod synchronisation {
+        pub use crate::synchronisation::*;
+    }
+}
 
 use thiserror::Error;
 
